@@ -24,4 +24,5 @@ DELIVERABLES in /tmp/mut/{pid}/out/ :
   m1.diff  m2.diff          - `git diff` of the source change only (no demo files), relative to HEAD
   m1_demo_test.go  m2_demo_test.go  - the demonstration; first line a comment `// place in: <package dir relative to repo root>` and how to run it (go test -run <Name> ./<pkg>)
   m1.json  m2.json           - {{"property": "{pid}", "summary": "...what was changed...", "needs": "...what is needed for the violation to manifest...", "files": [...], "demo_run": "go test ..."}}
+IMPORTANT: put a file out/go.mod containing "module mutout" in out/ so that ./... ignores the demo files there.
 At the end leave the worktree clean (`git status` shows only out/ as untracked). Report briefly what the two changes are.""")
